@@ -312,3 +312,102 @@ def cover_style(ck, F):
     # first-match shape: get_default_num_fmt_id returns inside the loop on equality
     eqs = [bi for bi, t in a.calls() if (a.callee_q(t) or "").rsplit("::", 1)[-1] == "eq"]
     ck.ob(R, "get_default_num_fmt_id|first-match", len(eqs) == 1, "expected one equality test in a first-match loop", a.file, a.line)
+
+
+# ------------------------------------------------------------------------------------------------ C18
+def _config_reads(F, P, path, cache={}):
+    """{(ADT short name, field)} of language::* / locale::* fields read by a body and its local callees."""
+    if path in cache:
+        return cache[path]
+    out = set()
+    for p in P.reachable(path):
+        raw = F._raw.get(p, "")
+        if "ironcalc_base::language::" not in raw and "ironcalc_base::locale::" not in raw:
+            continue
+        b = F.body(p)
+        for _bi, _si, pl, _role in all_places(b):
+            for e in place_proj(pl):
+                if e[0] == "f" and e[3] and (str(e[3]).startswith("ironcalc_base::language::") or str(e[3]).startswith("ironcalc_base::locale::")):
+                    out.add((e[3].rsplit("::", 1)[-1], e[2]))
+    cache[path] = out
+    return out
+
+
+def table_io(ck, F):
+    """TABLE-io (C18): for booleans, errors and numbers the part of Language/Locale consulted when a cell's content is
+    displayed is also consulted by the branch of set_user_input that recognises that kind of value."""
+    from effects import Program
+    from mir import enum_switches, arm_region, calls_in
+    R = "TABLE-io"
+    P = Program(F)
+    disp = ck.need(F.one, "types::Cell::get_localized_text")
+    CV = "ironcalc_base::cell::CellValue"
+    sw = enum_switches(disp, CV)
+    if len(sw) != 1:
+        ck.anchor("get_localized_text: match over CellValue")
+        return
+    bi, tg, wild, info = sw[0]
+    display = {}
+    for kind, variant in (("boolean", "Boolean"), ("number", "Number")):
+        region = arm_region(disp, bi, tg[variant])
+        reads = set()
+        for x in region:
+            blk = disp.blocks[x]
+            from mir import rvalue_places
+            for s in blk["s"]:
+                for pl in [s["p"]] + rvalue_places(s["rv"]):
+                    for e in place_proj(pl):
+                        if e[0] == "f" and e[3] and (str(e[3]).startswith("ironcalc_base::language::") or str(e[3]).startswith("ironcalc_base::locale::")):
+                            reads.add((e[3].rsplit("::", 1)[-1], e[2]))
+        for cb, t in calls_in(disp, region):
+            c = t["fn"].get("r")
+            if c in F.heads:
+                reads |= _config_reads(F, P, c)
+        display[kind] = reads
+    # errors are displayed through Cell::value -> to_localized_error_string
+    ev = ck.need(F.one, "token::Error::to_localized_error_string")
+    display["error"] = _config_reads(F, P, ev.path)
+    su = ck.need(F.one, "model::Model::set_user_input")
+    sinks = {"boolean": "Worksheet::set_cell_with_boolean", "error": "Worksheet::set_cell_with_error", "number": "Worksheet::set_cell_with_number"}
+    for kind, sink in sinks.items():
+        cs = su.calls_to(sink)
+        ck.ob(R, "set_user_input|%s-sink" % kind, len(cs) >= 1, "set_user_input never stores a %s" % kind, su.file, su.line)
+        if not cs:
+            continue
+        sb = cs[0][0]
+        # everything consulted to decide to take this branch: operands of the dominating switches, and the value stored
+        reads = set()
+        ops = []
+        # switches that decide whether this sink is reached: those dominated by the first switch that follows the
+        # previous kind's test chain is hard to delimit; take every switch from which the sink is reachable and which
+        # cannot reach it on *all* of its edges (i.e. it really decides)
+        for d in range(len(su.blocks)):
+            t = su.term(d)
+            if t["k"] == "switch" and not su.is_cleanup(d):
+                reach = [sb in su.reachable_from(x) for x in su.succs(d)]
+                if any(reach):
+                    ops.append(t["o"])
+        ops.extend(cs[0][1]["args"][1:])
+        seen_calls = set()
+        for o in ops:
+            for x in sources(su, o):
+                if x[0] == "field" and (x[1].startswith("ironcalc_base::language::") or x[1].startswith("ironcalc_base::locale::")):
+                    reads.add((x[1].rsplit("::", 1)[-1], x[2]))
+                if x[0] == "call":
+                    for p in F.by_qname.get(x[1], []):
+                        reads |= _config_reads(F, P, p)
+        need = {k for k in display[kind] if k[0] in ("Booleans", "Errors", "NumbersSymbols")}
+        got = {k for k in reads if k[0] in ("Booleans", "Errors", "NumbersSymbols")}
+        missing = sorted(need - got)
+        f, l = su.loc(sb)
+        ck.ob(R, "set_user_input|%s|reads-what-display-reads" % kind, not missing,
+              "a %s is displayed using %s but the branch of set_user_input that recognises a %s never consults %s: in a language/locale where those differ "
+              "from English the displayed content does not re-enter as the same %s" % (kind, sorted(need), kind, missing, kind), f, l,
+              sample={"kind": kind, "display_reads": sorted(map(str, need)), "input_reads": sorted(map(str, got))})
+    # quote prefix: display prepends ' iff style.quote_prefix; input strips ' and sets the quote-prefix style
+    gl = ck.need(F.one, "model::Model::get_localized_cell_content")
+    reads_qp = any(e[0] == "f" and e[2] == "quote_prefix" for _b, _s, pl, _r in all_places(gl) for e in place_proj(pl))
+    strips = bool(su.calls_to("str::strip_prefix")) and bool(su.calls_to("Styles::get_style_with_quote_prefix"))
+    ck.ob(R, "quote-prefix|display-and-input-agree", reads_qp and strips,
+          "quote prefix: display side reads style.quote_prefix=%s, input side strips the apostrophe and sets the quote-prefix style=%s" % (reads_qp, strips),
+          su.file, su.line, sample={"display_reads_quote_prefix": reads_qp, "input_sets_quote_prefix": strips})
